@@ -225,7 +225,9 @@ class TransactionBuilder:
         Returns:
             TransactionBuilder: Current transaction builder.
         """
-        self.inputs.append(utxo)
+        # A UTxO can be spent only once: adding one that is already an input does not repeat it.
+        if utxo not in self.inputs:
+            self.inputs.append(utxo)
         return self
 
     def _consolidate_redeemer(self, redeemer):
@@ -356,7 +358,10 @@ class TransactionBuilder:
                 "Supplied scripts do not match the payment part of the input address."
             )
 
-        self.inputs.append(utxo)
+        # The script, datum and redeemer above are kept per UTxO (the latest ones given win); the UTxO itself
+        # is one input no matter how often it was added, through this method or through add_input.
+        if utxo not in self.inputs:
+            self.inputs.append(utxo)
         return self
 
     def add_minting_script(
